@@ -210,8 +210,8 @@ class Kauri(ClusterMixin, BaseEstimator, ABC):
         max_features = min(X.shape[1], max(self.max_features, 1)) if self.max_features is not None else X.shape[1]
         max_depth = len(X) if self.max_depth is None else self.max_depth
 
-        # Set up variables for tree representation
-        self.tree_ = Tree()
+        # Set up variables for tree representation: the tree is only published on the estimator once it is complete
+        tree = Tree()
 
         Z = np.zeros((max_leaves, len(X)), dtype=np.int64)  # Leaf2sample
         Z[0, :] = 1
@@ -280,8 +280,8 @@ class Kauri(ClusterMixin, BaseEstimator, ABC):
                 Y[best_split.right_target, n_leaves] = 1
 
                 # Update the tree using the split
-                self.tree_._add_child(leaf2node[best_split.leaf], best_split)
-                parent_depth = self.tree_.get_depth(leaf2node[best_split.leaf])
+                tree._add_child(leaf2node[best_split.leaf], best_split)
+                parent_depth = tree.get_depth(leaf2node[best_split.leaf])
 
                 # Update the leaf 2 node
 
@@ -310,6 +310,7 @@ class Kauri(ClusterMixin, BaseEstimator, ABC):
                     # Single star gain
                     n_clusters += 1
 
+        self.tree_ = tree
         self.labels_ = (Y @ Z).argmax(0)
         self.leaves_ = Z.argmax(0)
 
